@@ -91,3 +91,13 @@ CHECKS["C20"] = dict(level=EX, engine="E4", design_ref="DESIGN.md section 3 C20"
    technique="exhaustive bounded string enumeration through normalize(); bounded document grammar through normalize(is_xml=True) judged by an expat infoset and an own XPath normalize-space",
    text="Every string up to length 8 (10) over {a,b,space,tab,LF,NBSP} (and short strings over a wider alphabet) must normalise idempotently, keep its words and order, and contain no NBSP, edge space or space run. Every document up to 4 elements over ordinary and protected names with up to 2 (3) whitespace-laden text/tail/attribute features must come back well-formed with the same elements, attribute names and order, space-normalised values outside protected elements, preserved text inside them, and a second pass must return the identical string.",
    note="Length/alphabet and document-size bounds; literal NBSP only; indentation added by the serializer where the expected text is empty is tolerated (absent = '' = whitespace-only).")
+
+CHECKS["C15"] = dict(level=EX, engine="E3", design_ref="DESIGN.md section 3 C15",
+   technique="deviation-bounded exhaustive tree enumeration x both modes, against a reference pruner run on an identically built twin, with postconditions and idempotence re-verified directly",
+   text="Every tree within 1 (2 on small bases) mutation of the generated valid bases and of tests/data/eml.xml - unknown elements with and without children, known elements in disallowed places, nodes failing single-node validation, metadata wrappers with foreign content, at every position - is pruned in strict and non-strict mode; the kept structure (node identities and order), untouched fields, returned subtree roots with reasons, registry delta, postconditions and a second no-op prune are checked against a reference pruner written from the statement.",
+   note="Real validate.node is the reference for 'passes single-node validation' (C01-C03 judge it); reason strings, list order and an unknown root are unspecified.")
+
+CHECKS["C16"] = dict(level="fault_enumeration", engine="E3", design_ref="DESIGN.md section 3 C16",
+   technique="exhaustive enumeration of referenced/referencing arrangements in every document order x every single-fault placement (dangling reference, duplicated id), with reference substitution, identity snapshots and atomicity oracle",
+   text="All assignments of roles to 2-4 (5) party slots of a dataset (referenced with three child sets, referencing with every choice of target, references before and after their target, several references to one id), with-role parties carrying one or two roles, attributeList and dataTable references; for each arrangement the fault-free expansion is compared with a spec-level substitution plus identity/registry/parent-link/validity/independence checks, and every placement of one dangling reference or duplicated id must raise ValueError leaving tree and registry exactly as before.",
+   note="Precondition of the statement is built into the generator; slots per skeleton and the reduced independence edit menu are the bounds.")
